@@ -295,7 +295,19 @@ def run(ctx):
             src_calls = {b.blocks[s[1]]["t"]["call"]["name"] for s in flat(trp.sources(split[0]["args"][0])) if s[0] == "call"}
             order_ok = not any("decode" in n for n in src_calls)
             # the decoder is mapped over the split iterator
-            maps = [t for _, t in b.calls() if t["call"]["name"] == "map" and any((a.get("c") or {}).get("fn", {}).get("def", "").startswith("percent_encoding::percent_decode_str") for a in t["args"])]
+            def maps_decoder(t):
+                """the map's function argument is percent_decode_str itself or a closure that calls it"""
+                for a in t["args"][1:]:
+                    if (a.get("c") or {}).get("fn", {}).get("def", "").startswith("percent_encoding::percent_decode_str"):
+                        return True
+                    for s_ in trp.sources(a):
+                        if s_[0] == "agg":
+                            st_ = b.blocks[s_[1]]["s"][s_[2]]
+                            clo = c.body(st_["r"].get("id")) if st_["r"].get("agg") == "closure" else None
+                            if clo is not None and any(t2["call"]["def"].startswith("percent_encoding::percent_decode_str") for _, t2 in clo.calls()):
+                                return True
+                return False
+            maps = [t for _, t in b.calls() if t["call"]["name"] == "map" and maps_decoder(t)]
             order_ok = order_ok and len(maps) == 1 and any(s[0] == "call" and b.blocks[s[1]]["t"] is split[0] for s in flat(trp.sources(maps[0]["args"][0])))
         ctx.check(len(split) == 1 and sc is not None and sc.get("char") == "/" and len(dec) >= 1 and order_ok, "R7.5", b.loc(), "path_param|pairing",
                   "path_param must split the matched parameter on '/' and percent-decode each segment (the inverse of push_path_parameter)", instance="path_param: split('/') . percent_decode_str")
@@ -303,7 +315,7 @@ def run(ctx):
         ctx.violation("R7.5", "conjure_http", "anchor|path_param", "path_param not found")
     pq = [b for b in c.bodies if b.name == "parse_query_params" and b.id.startswith("conjure_http::private::server::")]
     if len(pq) == 1:
-        fu = [t for _, t in pq[0].calls() if t["call"]["def"].startswith("form_urlencoded::parse")]
+        fu = [t for x in [pq[0]] + c.closures_of(pq[0]) for _, t in x.calls() if t["call"]["def"].startswith("form_urlencoded::parse")]
         ctx.check(len(fu) == 1, "R7.5", pq[0].loc(), "parse_query_params|pairing", "parse_query_params must decode the query with form_urlencoded::parse", instance="parse_query_params: form_urlencoded::parse")
     else:
         ctx.violation("R7.5", "conjure_http", "anchor|parse_query_params", "parse_query_params not found")
